@@ -21,7 +21,16 @@ def verdict(case, ex):
     if ex["problems"]:
         return False, "; ".join(ex["problems"]), "names-or-inputs"
     if ex["cmp"]:
-        sig = "out-of-extent" if any("outside its extent" in c for c in ex["cmp"]) and not any("differs" in c for c in ex["cmp"]) else "wrong-values"
+        # are all differences elements outside the declared extent (the in-extent part being right)?
+        want = oracle_of(case, ex)
+        got = outputs_of(ex)
+        inrange_ok = True
+        for n, w in want.items():
+            exts = gens.tensor_ext(case, n)
+            g = [(p, v) for p, v in got.get(n, []) if all(0 <= c < x for c, x in zip(p, exts))]
+            if g != w:
+                inrange_ok = False
+        sig = "out-of-extent-only" if inrange_ok else "wrong-values"
         return False, "; ".join(ex["cmp"]), sig
     return True, None, None
 
